@@ -283,6 +283,7 @@ class Interp:
         sub.member_range = self.member_range
         sub.exact_seqs, sub.carry_vecs = self.exact_seqs, self.carry_vecs
         sub.elem_refs = self.elem_refs
+        sub.listed_seqs = self.listed_seqs
         sub.carry_env, sub.carry_exact = self.carry_env, self.carry_exact
         env = {}
         states = [St(env, st.heap, st.ev, st.pc, st.ctr)]
@@ -1180,6 +1181,11 @@ class Interp:
                           # index, for, pop, extend, enumerate / map / filter, any / all / position / find / count, first / last /
                           # split_last / windows (literal evaluation of list-valued code; off by default: rules that read the
                           # *generic element* of an adaptor over a `vec![]` local keep seeing it)
+    listed_seqs = False   # (set on an instance) a sequence whose elements are listed one by one - ('vec', xs) / ('array', xs): exactly those
+                          # elements in that order, whatever each of them is - is *known by position*: the iterator adaptors (enumerate,
+                          # flatten, map / filter / filter_map with a closure, zip, chain, rev, collect) are evaluated on it element by
+                          # element, also when it is itself the result of such an adaptor (a whole chain is decided), instead of once
+                          # on a generic element.  Off by default for the same reason as exact_seqs.
     carry_vecs = False    # (set on an instance) local vectors pushed to in a loop body are loop-carried too, see carried_states
     carry_env = False     # (set on an instance) loop-carried locals are found on the *paths* of the body as well: a local bound outside
                           # the loop whose value at a back edge is not the value it entered the loop with is carried, whatever changed it
@@ -2013,6 +2019,12 @@ class Interp:
                     self.vec_mutate(('cell', vals[0]), cal, vals[1:], e, s, outs)
                     continue
                 vals = [s.heap[vals[0]]] + list(vals[1:])
+            if forget is not None and cal.rsplit('::', 1)[-1] in self.SORTS_BY_KEY and '<impl [T]>::' in cal and len(vals) == 2 \
+                    and listed_elems(vals[0]) is not None:
+                srt = self.sort_listed(cal.rsplit('::', 1)[-1], listed_elems(vals[0]), vals[1], e, s)
+                if srt is not None:
+                    outs.append(Out('val', UNIT, srt[1].set(forget, ('vec', srt[0])).event(('call', cal, tuple(vals), e))))
+                    continue
             for o in self.call(cal, vals, e, s):
                 if forget is not None and o.kind == 'val':
                     after = ('unk', 'vector after %s()' % cal.rsplit('::', 1)[-1])
@@ -2028,6 +2040,37 @@ class Interp:
                     o = Out('val', o.val, o.st.set(forget, after))
                 outs.append(o)
         return outs + abn
+
+    SORTS_BY_KEY = ('sort_by_key', 'sort_by_cached_key', 'sort_unstable_by_key')
+
+    def sort_listed(self, name, xs, fv, node, st):
+        """slice.sort_by_key(f) / sort_by_cached_key(f) / sort_unstable_by_key(f) on a sequence whose elements are listed one by one:
+        the elements in ascending order of their keys, elements with equal keys in their old order (the first two are stable sorts);
+        the unstable sort is the same function exactly when the keys are pairwise different (it leaves the order of equal elements
+        open: no model then).  Decided only when f yields, for every element, one literal integer (or one literal bool) without doing
+        anything else - Ord on integers / bools is the order of the values.  Returns (elements, state) or None (no model)."""
+        if fv[0] not in ('closure', 'fn'):
+            return None
+        keys, s = [], st
+        for x in xs:
+            outs = self.apply(fv, [x], node, s)
+            if len(outs) != 1 or outs[0].kind != 'val' or len(outs[0].st.ev) != len(s.ev) or outs[0].st.heap != s.heap:
+                return None
+            k = outs[0].val
+            while k[0] == 'cast' and k[1][0] == 'lit' and isinstance(k[1][1], int) and not isinstance(k[1][1], bool) \
+                    and INT_RANGE.get(hirq.strip_refs(str(k[2] or ''))) is not None \
+                    and INT_RANGE[hirq.strip_refs(str(k[2] or ''))][0] <= k[1][1] <= INT_RANGE[hirq.strip_refs(str(k[2] or ''))][1]:
+                k = k[1]            # a cast that keeps the value
+            if k[0] != 'lit' or not isinstance(k[1], int):
+                return None
+            keys.append(k[1])
+            s = outs[0].st
+        if len({isinstance(k, bool) for k in keys}) > 1:
+            return None
+        if name == 'sort_unstable_by_key' and len(set(keys)) != len(keys):
+            return None
+        order = sorted(range(len(xs)), key=lambda i: keys[i])        # (Python's sort is stable)
+        return tuple(xs[i] for i in order), s
 
     VEC_CAPACITY_ONLY = ('reserve', 'reserve_exact', 'shrink_to_fit', 'shrink_to', 'try_reserve', 'try_reserve_exact')
 
@@ -2159,6 +2202,11 @@ class Interp:
                 if lo > hi or hi > n:
                     return panic()
                 done(('vec', xs[:lo] + xs[hi:]), ('vec', xs[lo:hi]))
+                return True
+        if not own and name in self.SORTS_BY_KEY and '<impl [T]>::' in cal and len(vals) == 1:
+            srt = self.sort_listed(name, list(xs), vals[0], e, s)
+            if srt is not None:
+                done(('vec', srt[0]), UNIT, srt[1])
                 return True
         if not own and cal == 'core::slice::<impl [T]>::reverse' and not vals:
             done(('vec', tuple(reversed(xs))), UNIT)
@@ -3030,13 +3078,16 @@ def vec_truncate(c, n):
             x = x[1]
     return ('truncated', c, n)
 
-def finite_seq(t, exact=False):
+def finite_seq(t, exact=False, listed=False):
     """The element terms of a sequence value whose length is known syntactically: an array expression `[a, b, c]` (iter / into_iter
-    are transparent), also after zip / enumerate with literal counters; a vector all of whose elements are known values.  None for
+    are transparent), also after zip / enumerate with literal counters; a vector all of whose elements are known values; with
+    `listed` any vector term whose elements are listed one by one (it has exactly those elements, in that order).  None for
     anything else."""
     if t[0] == 'array' and len(t[1]) <= 16:
         return list(t[1])
     if exact and t[0] == 'vec' and len(t[1]) <= 16 and ground(t):
+        return list(t[1])
+    if listed and t[0] == 'vec' and len(t[1]) <= 16:
         return list(t[1])
     return None
 
@@ -3044,7 +3095,7 @@ def zip_finite(I, a, b):
     """The pairs of zip(a, b) when one side is an array expression and the other an array expression, a literal range or an
     open literal counter `n..`; None otherwise."""
     def side(t, n):
-        fs = finite_seq(t)
+        fs = finite_seq(t, listed=I.listed_seqs)
         if fs is not None:
             return fs
         if t[0] == 'struct' and t[1].rsplit('::', 1)[-1] == 'RangeFrom' and n is not None:
@@ -3053,7 +3104,7 @@ def zip_finite(I, a, b):
                 return [('lit', s[1] + i) for i in range(n)]
             return None
         return I.literal_elems(t)
-    fa, fb = finite_seq(a), finite_seq(b)
+    fa, fb = finite_seq(a, listed=I.listed_seqs), finite_seq(b, listed=I.listed_seqs)
     if fa is None and fb is None:
         return None
     xs = side(a, len(fb) if fb is not None else None)
@@ -3781,14 +3832,39 @@ def builtin_summary(I, cal, args, node, st):
         z = zip_finite(I, args[0], args[1])
         if z is not None:
             return [Out('val', ('array', tuple(z)), st)]
-    if cal == 'core::iter::traits::iterator::Iterator::enumerate' and len(args) == 1 and finite_seq(args[0], I.exact_seqs) is not None:
-        return [Out('val', ('array', tuple(('tuple', (('lit', i), x)) for i, x in enumerate(finite_seq(args[0], I.exact_seqs)))), st)]
+    if cal == 'core::iter::traits::iterator::Iterator::enumerate' and len(args) == 1 and finite_seq(args[0], I.exact_seqs, I.listed_seqs) is not None:
+        return [Out('val', ('array', tuple(('tuple', (('lit', i), x)) for i, x in enumerate(finite_seq(args[0], I.exact_seqs, I.listed_seqs)))), st)]
+    if cal == 'core::iter::traits::iterator::Iterator::flatten' and len(args) == 1 and finite_seq(args[0], I.exact_seqs, I.listed_seqs) is not None:
+        # flatten() yields, for each item of the outer iterator in order, the items of `item.into_iter()` in order.  For an item that
+        # is a known Option that is its payload (Some) or nothing (None) - Option<T>::into_iter yields the payload at most once -, for
+        # a known Result its Ok payload or nothing (Result<T, E>::into_iter), for a sequence known by position its elements.  An
+        # item of which none of this is known leaves the call unmodelled (opaque: whoever reads the result fails closed).
+        acc = []
+        for x in finite_seq(args[0], I.exact_seqs, I.listed_seqs):
+            if x[0] == 'ctor' and x[1] in ('Some', 'Ok') and len(x[2]) == 1:
+                acc.append(x[2][0])
+            elif x[0] == 'ctor' and x[1] in ('None', 'Err'):
+                pass
+            elif finite_seq(x, I.exact_seqs, I.listed_seqs) is not None:
+                acc.extend(finite_seq(x, I.exact_seqs, I.listed_seqs))
+            else:
+                acc = None; break
+        if acc is not None and len(acc) <= 16:
+            return [Out('val', ('array', tuple(acc)), st)]
+    if I.listed_seqs and cal == 'core::iter::traits::iterator::Iterator::chain' and len(args) == 2 \
+            and finite_seq(args[0], I.exact_seqs, True) is not None and finite_seq(args[1], I.exact_seqs, True) is not None \
+            and len(finite_seq(args[0], I.exact_seqs, True)) + len(finite_seq(args[1], I.exact_seqs, True)) <= 16:
+        # a.chain(b): every item of a in order, then every item of b in order
+        return [Out('val', ('array', tuple(finite_seq(args[0], I.exact_seqs, True) + finite_seq(args[1], I.exact_seqs, True))), st)]
+    if I.listed_seqs and cal == 'core::iter::traits::iterator::Iterator::rev' and len(args) == 1 and finite_seq(args[0], I.exact_seqs, True) is not None:
+        # rev() of a double-ended iterator over listed items yields the same items, last first
+        return [Out('val', ('array', tuple(reversed(finite_seq(args[0], I.exact_seqs, True)))), st)]
     if cal in ('core::iter::traits::iterator::Iterator::map', 'core::iter::traits::iterator::Iterator::filter_map', 'core::iter::traits::iterator::Iterator::filter') \
-            and len(args) == 2 and args[1][0] in ('closure', 'fn') and finite_seq(args[0], I.exact_seqs) is not None:
+            and len(args) == 2 and args[1][0] in ('closure', 'fn') and finite_seq(args[0], I.exact_seqs, I.listed_seqs) is not None:
         # an adaptor over an array expression is evaluated exactly, element by element in order (like a `for` over a literal
         # sequence): the result is the vector of what the closure yields / keeps, on each combination of its decisions
         states, abn = [((), st)], []
-        for x in finite_seq(args[0], I.exact_seqs):
+        for x in finite_seq(args[0], I.exact_seqs, I.listed_seqs):
             nxt = []
             for acc, s in states:
                 for o in I.apply(args[1], [x], node, s):
